@@ -215,6 +215,7 @@ class FakeNet:
         self.on_accept: Optional[Callable[[FakeTransport], None]] = None
         self.on_data: Optional[Callable[[FakeTransport, bytes], None]] = None
         self.inflight = 0
+        self.arm_on_accept: list = []   # write-fault positions to arm on the next accepted connections
         _CURRENT[0] = self
 
     def _event(self, kind: str, *args) -> None:
@@ -267,11 +268,16 @@ class FakeNet:
         writer = asyncio.StreamWriter(tr, protocol, reader, self.loop)
         if self.on_accept is not None:
             self.on_accept(tr)
+        if self.arm_on_accept:
+            n = self.arm_on_accept.pop(0)
+            if n:
+                tr.fail_write(n)
         return reader, writer
 
     def heal(self) -> None:
         """Make the network behave: clear script and every armed fault."""
         self.script.clear()
+        self.arm_on_accept.clear()
         self.default = ("accept", 0.0)
         for c in self.conns:
             c.fail_after = None
